@@ -120,12 +120,15 @@ def report():
         res = json.load(open(os.path.join(d, "result.json")))
         caught = [c for c, v in res["checks"].items() if v["violation"]]
         quiet = [c for c, v in res["checks"].items() if not v["violation"]]
-        rows.append((mid, meta.get("breaks"), meta.get("origin", ""), meta.get("summary", ""), res.get("upstream_tests_pass"), caught, quiet))
+        summ = meta.get("summary", "")
+        if meta.get("classification"):
+            summ += " **Judged " + meta["classification"] + "**"
+        rows.append((mid, meta.get("breaks"), meta.get("origin", ""), summ, res.get("upstream_tests_pass"), caught, quiet))
     out = ["# Which checks catch which seeded changes", "",
            "Generated by `tools/seeded.py report` from seeded/*/result.json (each produced by applying the patch to /repo, running the quick checks, and restoring /repo).", "",
            "| change | breaks | origin | upstream tests pass | caught by | ran quiet |", "|---|---|---|---|---|---|"]
     for mid, br, org, summ, ok, caught, quiet in rows:
-        out.append(f"| `{mid}`: {summ} | {br} | {org} | {ok} | {', '.join(caught) or '**none**'} | {', '.join(quiet)} |")
+        out.append(f"| `{mid}`: {summ} | {br} | {org} | {ok} | {', '.join(caught) or ('none (by judgement, see DESIGN.md section 6)' if 'Judged' in summ else '**none**')} | {', '.join(quiet)} |")
     open(os.path.join(ROOT, "SENSITIVITY.md"), "w").write("\n".join(out) + "\n")
     print("\n".join(out))
 
